@@ -11,9 +11,31 @@ def repo_dir():
     return os.path.abspath(os.environ.get("VERIF_REPO", "/repo"))
 
 
+_LIMIT_BITS = 13000          # ~3900 decimal digits: below the interpreter's default limit for int -> str (4300 digits)
+
+
+def _tame(obj):
+    """A copy in which integers too long for the interpreter's int->str conversion are replaced by a description
+    (the harness must not raise - nor lift - that limit itself: it is part of what the library runs under)."""
+    if isinstance(obj, bool):
+        return obj
+    if isinstance(obj, int):
+        if obj.bit_length() > _LIMIT_BITS:
+            return "<integer of %d bits, low 64 bits %x%s>" % (obj.bit_length(), abs(obj) & (2 ** 64 - 1), ", negative" if obj < 0 else "")
+        return obj
+    if isinstance(obj, dict):
+        return {k: _tame(v) for k, v in obj.items()}
+    if isinstance(obj, (list, tuple)):
+        return [_tame(v) for v in obj]
+    return obj
+
+
 def jdump(obj):
     """JSON text keeping key order, int/float distinction, non-ASCII."""
-    return json.dumps(obj, ensure_ascii=False, default=_default)
+    try:
+        return json.dumps(obj, ensure_ascii=False, default=_default)
+    except ValueError:
+        return json.dumps(_tame(obj), ensure_ascii=False, default=_default)
 
 
 def _default(o):
@@ -23,7 +45,10 @@ def _default(o):
         return list(o)
     if isinstance(o, bytes):
         return o.decode("latin-1")
-    return repr(o)
+    try:
+        return repr(o)
+    except ValueError:
+        return "<%s whose repr exceeds the integer conversion limit>" % type(o).__name__
 
 
 def h64(obj):
